@@ -1,7 +1,12 @@
 import CelmaVerif.Lemmas.Spelling
 import CelmaVerif.Lemmas.FileLines
 import CelmaVerif.Lemmas.SourcesSim
+import CelmaVerif.Lemmas.SourcesWords
+import CelmaVerif.Lemmas.SourcesSound
+import CelmaVerif.Lemmas.RulesComplete
+import CelmaVerif.Lemmas.RulesExample
 import CelmaVerif.Props.C07
+import CelmaVerif.Model.ProgArgs.SubGroups
 /-
   C07, second half — arguments from an argument file or the environment variable are evaluated by
   the same rules as command-line words, produce the same destination values, and can be overridden
@@ -413,5 +418,201 @@ example : ∃ hf, evalArguments Ex.cfg (Ex.cfg.initState Ex.inits)
 
 /-! ### non-vacuity -/
 example : ArgString.splitString "-m 1,2".toList = ["-m".toList, "1,2".toList] := by decide
+
+/-! ## Second audit follow-up: the same WORDS, the line-end condition, override from the declarative rules -/
+
+/-- **Sources and argv are one command line of words — under the line-end condition.**  Every file line,
+    the environment value and argv are read by a parser of their own.  Inside the grammar `Spells` the
+    only thing read across a word boundary that a line end cuts off is the value of a key whose value
+    is OPTIONAL (`-v` of a LevelCounter: `-v 3` on one line is the value 3, the two lines `-v` / `3` are
+    a use without value and a free value; replayed on the real code).  `BoundaryOk` — where a line
+    (the file, the environment value) ends, the words that follow (`fileWords` of the remaining lines,
+    then the environment words, then argv) do not begin with a value word, or the line does not end in
+    a value-less use of an optional-value argument — is required at the end of every file line that is
+    not skipped (`FileSpellsC`) and at the end of the environment value (`hEb`).  Then the words of the
+    non-skipped file lines, followed by the words of the environment value, followed by argv
+    (`src.words ++ ws`) spell, as ONE command line, the uses the sources spell line by line. -/
+theorem C07_sources_are_their_words (cfg : Cfg) (src : Sources) (ws : List Word) {usF usE usA : List Use}
+    (hF : FileSrcSpellsC cfg (src.envWordList ++ ws) none usF src.file)
+    (hE : EnvSrcSpells cfg (lastAfter none usF) usE src.env)
+    (hEb : BoundaryOk cfg usE ws)
+    (hA : Spells cfg (lastAfter none (usF ++ usE)) usA ws) :
+    Spells cfg none (usF ++ usE ++ usA) (src.words ++ ws) :=
+  sources_words_spell cfg none src ws hF hE hEb hA
+
+/-- **Same destination values as the same words on the command line.**  Under the line-end condition:
+    whenever the evaluation with sources is accepted and the evaluation of THE SAME WORDS — file words,
+    then environment words, then argv — given on argv alone is accepted, every destination holds the
+    same value in both (`C07_same_as_argv` instantiated with `ws' := src.words ++ ws`). -/
+theorem C07_same_as_the_words_on_argv (cfg : Cfg) (inits : List DVal) (hin : cfg.args.length ≤ inits.length)
+    (src : Sources) (prog : Word) (ws : List Word) {usF usE usA : List Use}
+    (hF : FileSrcSpellsC cfg (src.envWordList ++ ws) none usF src.file)
+    (hE : EnvSrcSpells cfg (lastAfter none usF) usE src.env)
+    (hEb : BoundaryOk cfg usE ws)
+    (hA : Spells cfg (lastAfter none (usF ++ usE)) usA ws)
+    {hf : HState} (e : evalArguments cfg (cfg.initState inits) src (prog :: ws) = .ok hf)
+    (prog' : Word) {hf' : HState} (e' : evalArguments cfg (cfg.initState inits) {} (prog' :: (src.words ++ ws)) = .ok hf')
+    {i : Nat} {d : ArgDef} {v : DVal} (hi : cfg.args[i]? = some d) (hv : inits[i]? = some v)
+    (ht : d.kind = .vecInt → ∃ l, v = .vec l) :
+    ∃ st st', hf.args[i]? = some st ∧ hf'.args[i]? = some st' ∧ st.dest = st'.dest :=
+  (C07_same_as_argv cfg inits hin src prog ws hF.toFileSrcSpells hE hA e hi hv ht).2 prog' _ hf'
+    (C07_sources_are_their_words cfg src ws hF hE hEb hA) e'
+
+/-- **The words accepted on argv are accepted through the sources, with the same destinations** (under
+    the line-end condition, and `NoEnd` cardinalities for the arguments the sources use — both necessary:
+    the replayed `-v` / `3`, and `C07_finding_list_cardinality_from_file`). -/
+theorem C07_valid_words_through_sources (cfg : Cfg) (inits : List DVal)
+    (src : Sources) (prog : Word) (ws : List Word) {usF usE usA : List Use}
+    (hF : FileSrcSpellsC cfg (src.envWordList ++ ws) none usF src.file)
+    (hE : EnvSrcSpells cfg (lastAfter none usF) usE src.env)
+    (hEb : BoundaryOk cfg usE ws)
+    (hA : Spells cfg (lastAfter none (usF ++ usE)) usA ws)
+    (prog' : Word) {hArgv : HState}
+    (eA : evalArguments cfg (cfg.initState inits) {} (prog' :: (src.words ++ ws)) = .ok hArgv)
+    (hS : ∀ i d, UsedBy (usF ++ usE) i → cfg.args[i]? = some d → d.card.NoEnd) :
+    ∃ hf, evalArguments cfg (cfg.initState inits) src (prog :: ws) = .ok hf ∧
+      hf.args.map (·.dest) = hArgv.args.map (·.dest) :=
+  C07_valid_line_through_sources cfg inits src prog ws hF.toFileSrcSpells hE hA prog' _
+    (C07_sources_are_their_words cfg src ws hF hE hEb hA) eA hS
+
+/-- **Override, from the declarative rules.**  `C07_override` with its hypothesis "accepted under
+    `cfg.relax O`" (a run of the abstract model) replaced by what `rules_complete` needs: the
+    configuration without the overridden cardinality objects is well formed, and the abstract line
+    `usF ++ usE ++ usA` OBEYS its rules (`Obeys (cfg.relax O)`: every rule of `cfg` except the
+    cardinalities selected by `O`), uses no deprecated argument and respects the LevelCounter value
+    rules. -/
+theorem C07_override_obeys (cfg : Cfg) (inits : List DVal) (hin : cfg.args.length ≤ inits.length) (O : Nat → Bool)
+    (hsc : ∀ i d, O i = true → cfg.args[i]? = some d → d.kind ≠ .vecInt ∧ ∃ n, d.card = .max n)
+    (wfR : (cfg.relax O).WellFormed)
+    (src : Sources) (prog : Word) (ws : List Word) {usF usE usA : List Use}
+    (hF : FileSrcSpells cfg none usF src.file)
+    (hE : EnvSrcSpells cfg (lastAfter none usF) usE src.env)
+    (hA : Spells cfg (lastAfter none (usF ++ usE)) usA ws)
+    (ob : Obeys (cfg.relax O) inits (usF ++ usE ++ usA))
+    (notDeprecated : ∀ u ∈ usF ++ usE ++ usA, ∀ d, (cfg.relax O).args[u.arg]? = some d → d.deprecated = false)
+    (levels : ∀ (i : Nat) (d : ArgDef) (v : DVal), (cfg.relax O).args[i]? = some d → d.kind = .level →
+      inits[i]? = some v → LevelValuesOk d (levelOf v) false false (valsOf i (usF ++ usE ++ usA)))
+    (hb : ∀ i d n, O i = true → cfg.args[i]? = some d → d.card = .max n → n = -1 ∨ (usesOf i usA : Int) ≤ n)
+    (hS : ∀ i d, UsedBy (usF ++ usE) i → O i = false → cfg.args[i]? = some d → d.card.NoEnd) :
+    ∃ hf, evalArguments cfg (cfg.initState inits) src (prog :: ws) = .ok hf ∧
+      ∀ i d v, cfg.args[i]? = some d → inits[i]? = some v → (d.kind = .vecInt → ∃ l, v = .vec l) →
+        ∃ st, hf.args[i]? = some st ∧ st.dest = denote d v (valsOf i (usF ++ usE ++ usA)) := by
+  have hlen : (cfg.relax O).args.length = cfg.args.length := by simp [Cfg.relax]
+  obtain ⟨hR, eR⟩ := rules_complete wfR (inits := inits) (by rw [hlen]; exact hin) ob notDeprecated levels
+  have hinit := relax_initState cfg O inits
+  rw [hinit] at eR
+  exact C07_override cfg inits hin O hsc src prog ws hF hE hA eR hb hS
+
+/-- non-vacuity of the line-end condition and of `C07_override_obeys`: the `Ex` file obeys it — `-n 5`
+    ends in a use WITH value, `-l 1` likewise (so the line `2` may follow), the environment value `-f`
+    is followed by the key word `-n` -/
+theorem Ex.hFC : FileSrcSpellsC Ex.cfg (Ex.src.envWordList ++ Ex.argv) none Ex.usF Ex.src.file := by
+  show FileSpellsC Ex.cfg _ none Ex.usF Ex.lines
+  have s1 : ArgString.splitString ['-', 'n', ' ', '5'] = [['-', 'n'], ['5']] := by decide
+  have s2 : ArgString.splitString ['-', 'l', ' ', '1'] = [['-', 'l'], ['1']] := by decide
+  have s3 : ArgString.splitString ['2'] = [['2']] := by decide
+  have closed : ∀ (u : Use) (next : List Word), u.val ≠ [] → BoundaryOk Ex.cfg [u] next := by
+    intro u next hu
+    refine Or.inr ?_
+    intro u' hu' d _ _
+    simp only [List.getLast?_singleton, Option.some.injEq] at hu'
+    subst hu'
+    exact hu
+  refine .skip (Or.inr rfl) (.skip (Or.inl rfl) ?_)
+  refine FileSpellsC.line (us1 := [⟨0, ['5'], true⟩]) (us2 := [⟨2, ['1'], true⟩, ⟨2, ['2'], false⟩])
+    (by unfold SkippedLine; decide) ?_ (closed _ _ (by decide)) ?_
+  · rw [s1]
+    exact .shortVal (d := Ex.nArg) (by decide) rfl (by decide) (Ex.plain '5' (by decide)) (.nil _)
+  · refine FileSpellsC.line (us1 := [⟨2, ['1'], true⟩]) (us2 := [⟨2, ['2'], false⟩])
+      (by unfold SkippedLine; decide) ?_ (closed _ _ (by decide)) ?_
+    · rw [s2]
+      exact .shortVal (d := Ex.lArg) (by decide) rfl (by decide) (Ex.plain '1' (by decide)) (.nil _)
+    · refine FileSpellsC.line (us1 := [⟨2, ['2'], false⟩]) (us2 := []) (by unfold SkippedLine; decide) ?_
+        (closed _ _ (by decide)) (.nil _)
+      rw [s3]
+      exact .free (d := Ex.lArg) rfl rfl (Ex.plain '2' (by decide)) (.nil _)
+
+/-- … so the words of the example's sources followed by argv spell its uses as one command line:
+    `-n 5 -l 1 2 -f -n 7` -/
+example : Ex.src.words ++ Ex.argv = [['-', 'n'], ['5'], ['-', 'l'], ['1'], ['2'], ['-', 'f'], ['-', 'n'], ['7']] ∧
+    Spells Ex.cfg none (Ex.usF ++ Ex.usE ++ Ex.usA) (Ex.src.words ++ Ex.argv) :=
+  ⟨by decide, C07_sources_are_their_words Ex.cfg Ex.src Ex.argv Ex.hFC Ex.hE
+    (Or.inl (Or.inr ⟨['n'], [['7']], rfl, by decide, by decide⟩)) Ex.hA⟩
+
+/-- the line-end condition is necessary: LevelCounter `-v` (optional value) — the words `-v 3` on argv
+    give level 3, the same words as two file lines are refused (the second line is a free value nobody
+    takes); replayed on the real code (corpus/progargs/grammar_quirks.ops) -/
+theorem C07_witness_line_end :
+    (match evalArguments { args := [{ key := ⟨some 'v', []⟩, kind := .level, vmode := .optional, card := .unlimited }] }
+        (Cfg.initState { args := [{ key := ⟨some 'v', []⟩, kind := .level, vmode := .optional, card := .unlimited }] } [.level 0])
+        {} [['p'], ['-', 'v'], ['3']] with | .ok h => h.args.map (·.dest) | _ => []) = [.level 3] ∧
+    (evalArguments { args := [{ key := ⟨some 'v', []⟩, kind := .level, vmode := .optional, card := .unlimited }] }
+        (Cfg.initState { args := [{ key := ⟨some 'v', []⟩, kind := .level, vmode := .optional, card := .unlimited }] } [.level 0])
+        { file := some [['-', 'v'], ['3']] } [['p']]).isOk = false := by decide +kernel
+
+/-- non-vacuity of `C07_override_obeys`: the relaxed example configuration is well formed, the example
+    line obeys its rules (obtained from `rules_sound` on the accepted relaxed run), no argument is
+    deprecated, there is no LevelCounter -/
+theorem Ex.relaxed : Ex.cfg.relax Ex.O = { args := [Ex.nArg.noCard, Ex.fArg, Ex.lArg] } := rfl
+
+theorem Ex.wfR : (Ex.cfg.relax Ex.O).WellFormed := by
+  rw [Ex.relaxed]
+  refine ⟨by unfold Disjoint; decide, ?_, by decide, ?_, ?_⟩
+  · intro d hd c hc
+    simp only [List.mem_cons, List.not_mem_nil, or_false] at hd
+    rcases hd with rfl | rfl | rfl <;> cases hc
+  · intro g hg; cases hg
+  · intro g hg; cases hg
+
+example : ∃ hf, evalArguments Ex.cfg (Ex.cfg.initState Ex.inits) Ex.src (['p'] :: Ex.argv) = .ok hf ∧
+    (∃ st, hf.args[0]? = some st ∧ st.dest = .int 7) := by
+  obtain ⟨hR, eR⟩ := Ex.eR
+  have eR' : evalUses (Ex.cfg.relax Ex.O) ((Ex.cfg.relax Ex.O).initState Ex.inits) (Ex.usF ++ Ex.usE ++ Ex.usA) = .ok hR := by
+    rw [relax_initState]; exact eR
+  have hlen : (Ex.cfg.relax Ex.O).args.length ≤ Ex.inits.length := by decide
+  have ob : Obeys (Ex.cfg.relax Ex.O) Ex.inits (Ex.usF ++ Ex.usE ++ Ex.usA) := rules_sound Ex.wfR hlen eR'
+  have hargs : ∀ (i : Nat) (d : ArgDef), (Ex.cfg.relax Ex.O).args[i]? = some d →
+      d.deprecated = false ∧ d.kind ≠ .level := by
+    intro i d hd
+    rw [Ex.relaxed] at hd
+    match i, hd with
+    | 0, hd => cases hd; exact ⟨rfl, by decide⟩
+    | 1, hd => cases hd; exact ⟨rfl, by decide⟩
+    | 2, hd => cases hd; exact ⟨rfl, by decide⟩
+    | n + 3, hd => simp at hd
+  obtain ⟨hf, e, hd⟩ := C07_override_obeys Ex.cfg Ex.inits (by decide) Ex.O Ex.hsc Ex.wfR Ex.src ['p'] Ex.argv
+    Ex.hF Ex.hE Ex.hA ob (fun u _ d hd => (hargs _ d hd).1) (fun i d v hd hk _ => absurd hk (hargs i d hd).2) Ex.hb Ex.hS
+  have d0 : denote Ex.nArg (.int 0) (valsOf 0 (Ex.usF ++ Ex.usE ++ Ex.usA)) = .int 7 := by decide
+  exact ⟨hf, e, by rw [← d0]; exact hd 0 Ex.nArg (.int 0) rfl rfl (fun h => by cases h)⟩
+
+/-! ### the recorded finding `sub-handler-source-value-counted` (handler trees) -/
+
+namespace FindingSub
+def mArg : ArgDef := { key := ⟨some 'm', []⟩, kind := .int, vmode := .required, card := .max 1 }
+def nArg : ArgDef := { key := ⟨some 'n', "num".toList⟩, kind := .int, vmode := .required, card := .max 1 }
+/-- main handler: `-m` (int); sub-group argument `-s,--output` whose handler defines `-n,--num` (int) -/
+def tcfg : TCfg :=
+  { main := { args := [mArg], abbr := false },
+    subs := [{ key := ⟨some 's', "output".toList⟩, sub := { args := [nArg], abbr := false } }] }
+def t0 : TState := tcfg.initState { main := [.int 0], subs := [[.int 0]] }
+def mainDest (r : Res TState) : Option (List DVal) :=
+  match r with | .ok t => some (t.main.args.map (·.dest)) | _ => none
+def subDest (r : Res TState) : Option (List (List DVal)) :=
+  match r with | .ok t => some (t.subs.map (fun h => h.args.map (·.dest))) | _ => none
+end FindingSub
+
+/-- **Known finding `sub-handler-source-value-counted`** (the unchanged tree, C07 "can be overridden by a
+    later value on the real command line", handler trees): an argument of the MAIN handler given in the
+    argument file is overridden on argv (`-m 5` in the file, `-m 7` on argv ⇒ 7); an argument of the
+    handler behind a SUB-GROUP argument is not — `-s -n 5` in the file is accepted, and with `-s -n 7` on
+    argv the evaluation is refused (cardinality): the sub handler's read mode stays "command line" while
+    the main handler reads the file, so the value from the file is counted.  Real code = model (replayed). -/
+theorem C07_finding_sub_handler_source_value_counted :
+    FindingSub.mainDest (evalArgumentsT FindingSub.tcfg FindingSub.t0 { file := some ["-m 5".toList] }
+      ["p".toList, "-m".toList, "7".toList]) = some [.int 7] ∧
+    FindingSub.subDest (evalArgumentsT FindingSub.tcfg FindingSub.t0 { file := some ["-s -n 5".toList] }
+      ["p".toList]) = some [[.int 5]] ∧
+    (evalArgumentsT FindingSub.tcfg FindingSub.t0 { file := some ["-s -n 5".toList] }
+      ["p".toList, "-s".toList, "-n".toList, "7".toList]).isOk = false := by decide +kernel
 
 end CelmaVerif.Props.C07b
